@@ -650,4 +650,361 @@ theorem C12_redirect_page_escaped (msg u : Text) :
   exact ⟨q, body, by unfold redirectAnchor; rw [hq], hq', hb, htmlEscape_no_markup u,
     htmlUnescape_htmlEscape u⟩
 
+/-! ### access log -/
+
+/-- printable ASCII: 0x20..0x7E -/
+def Printable (c : Char) : Prop := 32 ≤ c.toNat ∧ c.toNat ≤ 126
+instance (c : Char) : Decidable (Printable c) := by unfold Printable; infer_instance
+
+theorem undouble_subset (l : Text) : ∀ c ∈ undouble l, c ∈ l := by
+  fun_induction undouble l with
+  | case1 => simp
+  | case2 c => simp
+  | case3 a b rest h ih =>
+    intro c hc
+    simp only [List.mem_cons] at hc ⊢
+    rcases hc with rfl | hc
+    · exact Or.inl h.1.symm
+    · exact Or.inr (Or.inr (ih c hc))
+  | case4 a b rest h ih =>
+    intro c hc
+    simp only [List.mem_cons] at hc ⊢
+    rcases hc with rfl | hc
+    · exact Or.inl rfl
+    · have := ih c hc
+      simp only [List.mem_cons] at this
+      exact Or.inr this
+
+theorem reprByte_printable :
+    ∀ b, b < 256 → (reprByte 34 b).all (fun c => decide (Printable c)) = true ∧
+                   (reprByte 39 b).all (fun c => decide (Printable c)) = true := by
+  decide +kernel
+
+theorem reprQuote_cases (bs : List Nat) : reprQuote bs = 34 ∨ reprQuote bs = 39 := by
+  unfold reprQuote; split <;> simp
+
+theorem logEscape_printable (s : Text) : ∀ c ∈ logEscape s, Printable c := by
+  intro c hc
+  have hc' := undouble_subset _ c hc
+  simp only [bytesReprBody, List.mem_flatMap, List.mem_map] at hc'
+  obtain ⟨b, ⟨u, _, rfl⟩, hcb⟩ := hc'
+  have hb := reprByte_printable u.toNat (UInt8.toNat_lt u)
+  rcases reprQuote_cases ((utf8 (escQuote s)).map UInt8.toNat) with hq | hq
+  · rw [hq] at hcb
+    have := List.all_eq_true.mp hb.1 c hcb
+    simpa using this
+  · rw [hq] at hcb
+    have := List.all_eq_true.mp hb.2 c hcb
+    simpa using this
+
+theorem renderMarked_all (esc : Text → Text) (P : Char → Prop)
+    (hesc : ∀ v, ∀ c ∈ esc v, P c) (kw : List (Text × Text)) :
+    ∀ (tpl : List Piece), (∀ pc ∈ tpl, ∀ s, pc = .lit s → ∀ c ∈ s, P c) →
+      ∀ out, renderMarked esc kw tpl = some out → ∀ p ∈ out, P p.1 := by
+  intro tpl
+  induction tpl with
+  | nil => intro _ out h; simp [renderMarked] at h; subst h; simp
+  | cons pc rest ih =>
+    intro hl out h
+    have ih' := ih (fun pc' hpc' => hl pc' (by simp [hpc']))
+    cases pc with
+    | lit s =>
+      simp only [renderMarked, Option.map_eq_some_iff] at h
+      obtain ⟨r, hr, rfl⟩ := h
+      intro p hp
+      simp only [List.mem_append, List.mem_map] at hp
+      rcases hp with ⟨c, hc, rfl⟩ | hp
+      · exact hl (.lit s) (by simp) s rfl c hc
+      · exact ih' r hr p hp
+    | field n =>
+      simp only [renderMarked] at h
+      cases hlk : lookup kw n with
+      | none => rw [hlk] at h; cases h
+      | some v =>
+        cases hr : renderMarked esc kw rest with
+        | none => rw [hlk, hr] at h; cases h
+        | some r =>
+          rw [hlk, hr] at h
+          have : out = (esc v).map (·, false) ++ r := by cases h; rfl
+          subst this
+          intro p hp
+          simp only [List.mem_append, List.mem_map] at hp
+          rcases hp with ⟨c, hc, rfl⟩ | hp
+          · exact hesc v c hc
+          · exact ih' r hr p hp
+
+def litsPrintable : List Piece → Bool
+  | [] => true
+  | .lit s :: rest => s.all (fun c => decide (Printable c)) && litsPrintable rest
+  | .field _ :: rest => litsPrintable rest
+
+theorem litsPrintable_spec : ∀ tpl, litsPrintable tpl = true →
+    ∀ pc ∈ tpl, ∀ s, pc = .lit s → ∀ c ∈ s, Printable c := by
+  intro tpl
+  induction tpl with
+  | nil => intro _ pc hpc; cases hpc
+  | cons x rest ih =>
+    intro h pc hpc s hs c hc
+    cases x with
+    | lit t =>
+      simp only [litsPrintable, Bool.and_eq_true] at h
+      cases hpc with
+      | head => cases hs; simpa using List.all_eq_true.mp h.1 c hc
+      | tail _ hpc => exact ih h.2 pc hpc s hs c hc
+    | field n =>
+      simp only [litsPrintable] at h
+      cases hpc with
+      | head => cases hs
+      | tail _ hpc => exact ih h pc hpc s hs c hc
+
+/-- **C12_log_single_line_escaped**: every atom `LogManager.access` writes, for every input text,
+    consists of printable ASCII only (no CR, LF, other control character, DEL or non-ASCII byte
+    survives unescaped); and with the literal text of `access_log_format` (generated table) the
+    whole entry is printable ASCII — in particular a single line. -/
+theorem C12_log_single_line_escaped :
+    (∀ s : Text, ∀ c ∈ logEscape s, Printable c) ∧
+    (∀ (atoms : List (Text × Text)) (line : Text), accessLine atoms = some line →
+      ∀ c ∈ line, Printable c ∧ c ≠ '\n' ∧ c ≠ '\r') := by
+  refine ⟨logEscape_printable, ?_⟩
+  intro atoms line h c hc
+  simp only [accessLine, accessLineMarked, Option.map_eq_some_iff] at h
+  obtain ⟨out, hout, rfl⟩ := h
+  have hl : litsPrintable (toPieces accessLogFormat) = true := by decide +kernel
+  have := renderMarked_all logEscape Printable logEscape_printable atoms _
+    (litsPrintable_spec _ hl) out hout
+  simp only [List.mem_map] at hc
+  obtain ⟨p, hp, rfl⟩ := hc
+  have hp' := this p hp
+  refine ⟨hp', ?_, ?_⟩
+  · rintro h; rw [h] at hp'; revert hp'; decide
+  · rintro h; rw [h] at hp'; revert hp'; decide
+
+/-- an ASCII byte `k` occurs in the UTF-8 encoding of a character only if the character is `k` -/
+theorem utf8EncodeChar_ascii (c : Char) (k : Nat) (hk : k < 128) :
+    ∀ b ∈ String.utf8EncodeChar c, b.toNat = k → c.toNat = k := by
+  have hor : ∀ (x m : UInt8), 128 ≤ m.toNat → (x ||| m).toNat ≠ k := by
+    intro x m hm
+    rw [UInt8.toNat_or]
+    have : m.toNat ≤ x.toNat ||| m.toNat := Nat.right_le_or
+    omega
+  intro b hb hbk
+  rcases Char.utf8Size_eq c with h | h | h | h
+  · rw [String.utf8EncodeChar_eq_singleton h] at hb
+    simp only [List.mem_singleton] at hb
+    subst hb
+    rw [UInt32.toNat_toUInt8] at hbk
+    have hle : c.val.toNat ≤ 127 := by
+      unfold Char.utf8Size at h
+      simp only at h
+      split at h
+      · rename_i h'; exact UInt32.le_iff_toNat_le.mp h'
+      · split at h <;> (try split at h) <;> omega
+    unfold Char.toNat
+    omega
+  · rw [String.utf8EncodeChar_eq_cons_cons h] at hb
+    simp only [List.mem_cons, List.not_mem_nil, or_false] at hb
+    rcases hb with rfl | rfl <;> exact absurd hbk (hor _ _ (by decide))
+  · rw [String.utf8EncodeChar_eq_cons_cons_cons h] at hb
+    simp only [List.mem_cons, List.not_mem_nil, or_false] at hb
+    rcases hb with rfl | rfl | rfl <;> exact absurd hbk (hor _ _ (by decide))
+  · rw [String.utf8EncodeChar_eq_cons_cons_cons_cons h] at hb
+    simp only [List.mem_cons, List.not_mem_nil, or_false] at hb
+    rcases hb with rfl | rfl | rfl | rfl <;> exact absurd hbk (hor _ _ (by decide))
+
+theorem char_eq_of_toNat (c : Char) (d : Char) (h : c.toNat = d.toNat) : c = d := by
+  apply Char.ext
+  exact UInt32.toNat_inj.mp h
+
+/-- "every double quote is immediately preceded by a backslash" (`p` = the previous character
+    was a backslash) -/
+def guardedAux : Bool → Text → Bool
+  | _, [] => true
+  | p, c :: rest => (c != '"' || p) && guardedAux (c == '\\') rest
+
+def QuotesGuarded (l : Text) : Prop := guardedAux false l = true
+
+/-- the same on bytes: every 34 is immediately preceded by 92 -/
+def bguardAux : Bool → List Nat → Bool
+  | _, [] => true
+  | p, b :: rest => (b != 34 || p) && bguardAux (b == 92) rest
+
+theorem guardedAux_mono (l : Text) : guardedAux false l = true → ∀ p, guardedAux p l = true := by
+  intro h p
+  cases l with
+  | nil => rfl
+  | cons c rest =>
+    simp only [guardedAux, Bool.and_eq_true, Bool.or_eq_true, Bool.or_false] at h ⊢
+    exact ⟨Or.inl h.1, h.2⟩
+
+theorem guardedAux_noquote_append (t l : Text) (ht : ∀ c ∈ t, c ≠ '"')
+    (hl : guardedAux false l = true) : ∀ p, guardedAux p (t ++ l) = true := by
+  induction t with
+  | nil => intro p; exact guardedAux_mono l hl p
+  | cons c rest ih =>
+    intro p
+    have hc : c ≠ '"' := ht c (by simp)
+    simp only [List.cons_append, guardedAux, Bool.and_eq_true, Bool.or_eq_true]
+    exact ⟨Or.inl (by simpa using hc), ih (fun x hx => ht x (by simp [hx])) _⟩
+
+theorem bguardAux_mono (l : List Nat) : bguardAux false l = true → ∀ p, bguardAux p l = true := by
+  intro h p
+  cases l with
+  | nil => rfl
+  | cons c rest =>
+    simp only [bguardAux, Bool.and_eq_true, Bool.or_eq_true, Bool.or_false] at h ⊢
+    exact ⟨Or.inl h.1, h.2⟩
+
+theorem bguardAux_noquote_append (t l : List Nat) (ht : ∀ c ∈ t, c ≠ 34)
+    (hl : bguardAux false l = true) : ∀ p, bguardAux p (t ++ l) = true := by
+  induction t with
+  | nil => intro p; exact bguardAux_mono l hl p
+  | cons c rest ih =>
+    intro p
+    have hc : c ≠ 34 := ht c (by simp)
+    simp only [List.cons_append, bguardAux, Bool.and_eq_true, Bool.or_eq_true]
+    exact ⟨Or.inl (by simpa using hc), ih (fun x hx => ht x (by simp [hx])) _⟩
+
+/-- `v.replace('\\\\', '\\')` keeps every quote guarded (a run of k ≥ 1 backslashes becomes
+    ⌈k/2⌉ ≥ 1 backslashes) -/
+theorem undouble_guarded (l : Text) : ∀ p, guardedAux p l = true → guardedAux p (undouble l) = true := by
+  fun_induction undouble l with
+  | case1 => intro p h; exact h
+  | case2 c => intro p h; exact h
+  | case3 a b rest hab ih =>
+    intro p h
+    obtain ⟨rfl, rfl⟩ := hab
+    simp only [guardedAux, Bool.and_eq_true] at h ⊢
+    refine ⟨by simp, ih _ ?_⟩
+    have := h.2.2
+    simpa using this
+  | case4 a b rest hab ih =>
+    intro p h
+    simp only [guardedAux, Bool.and_eq_true] at h ⊢
+    exact ⟨h.1, ih _ (by simp only [guardedAux, Bool.and_eq_true]; exact h.2)⟩
+
+theorem reprByte_noquote :
+    ∀ b, b < 256 → b ≠ 34 → (reprByte 39 b).all (fun c => c != '"') = true ∧
+                            (reprByte 34 b).all (fun c => c != '"') = true := by
+  decide +kernel
+
+theorem flatMap_repr39_guarded (bytes : List Nat) (hlt : ∀ b ∈ bytes, b < 256) :
+    ∀ p, bguardAux p bytes = true → guardedAux p (bytes.flatMap (reprByte 39)) = true := by
+  induction bytes with
+  | nil => intro p _; rfl
+  | cons b rest ih =>
+    intro p h
+    have ih' := ih (fun x hx => hlt x (by simp [hx]))
+    rw [List.flatMap_cons]
+    simp only [bguardAux, Bool.and_eq_true, Bool.or_eq_true] at h
+    by_cases h34 : b = 34
+    · subst h34
+      have : reprByte 39 34 = ['"'] := by decide
+      rw [this]
+      simp only [List.cons_append, List.nil_append, guardedAux, Bool.and_eq_true, Bool.or_eq_true]
+      refine ⟨?_, ih' _ (by simpa using h.2)⟩
+      rcases h.1 with h1 | h1
+      · simp at h1
+      · exact Or.inr h1
+    · by_cases h92 : b = 92
+      · subst h92
+        have : reprByte 39 92 = ['\\', '\\'] := by decide
+        rw [this]
+        simp only [List.cons_append, List.nil_append, guardedAux, Bool.and_eq_true, Bool.or_eq_true]
+        exact ⟨Or.inl (by decide), Or.inl (by decide), ih' _ (by simpa using h.2)⟩
+      · have hnq := (reprByte_noquote b (hlt b (by simp)) h34).1
+        have hrest : bguardAux false rest = true := by
+          have : (b == 92) = false := by simpa using h92
+          rw [this] at h; exact h.2
+        apply guardedAux_noquote_append _ _ _ (ih' false hrest)
+        intro c hc
+        have := List.all_eq_true.mp hnq c hc
+        simpa using this
+
+theorem flatMap_repr34_guarded (bytes : List Nat) (hlt : ∀ b ∈ bytes, b < 256)
+    (hno : ∀ b ∈ bytes, b ≠ 34) : ∀ p, guardedAux p (bytes.flatMap (reprByte 34)) = true := by
+  intro p
+  have := guardedAux_noquote_append (bytes.flatMap (reprByte 34)) [] ?_ rfl p
+  · simpa using this
+  · intro c hc
+    simp only [List.mem_flatMap] at hc
+    obtain ⟨b, hb, hcb⟩ := hc
+    have := List.all_eq_true.mp (reprByte_noquote b (hlt b hb) (hno b hb)).2 c hcb
+    simpa using this
+
+theorem utf8_cons (c : Char) (t : Text) : utf8 (c :: t) = String.utf8EncodeChar c ++ utf8 t := by
+  simp [utf8]
+
+theorem escQuote_bytes_guarded (s : Text) :
+    ∀ p, bguardAux p ((utf8 (escQuote s)).map UInt8.toNat) = true := by
+  induction s with
+  | nil => intro p; rfl
+  | cons c t ih =>
+    intro p
+    have hcons : escQuote (c :: t) = (if c = '"' then ['\\', '"'] else [c]) ++ escQuote t := by
+      simp [escQuote]
+    rw [hcons]
+    split
+    · have : (utf8 (['\\', '"'] ++ escQuote t)).map UInt8.toNat
+          = 92 :: 34 :: (utf8 (escQuote t)).map UInt8.toNat := by
+        simp only [List.cons_append, List.nil_append, utf8_cons, List.map_append]
+        rfl
+      rw [this]
+      simp only [bguardAux, Bool.and_eq_true, Bool.or_eq_true]
+      exact ⟨Or.inl (by decide), Or.inr (by decide), ih _⟩
+    · rename_i hc
+      simp only [List.cons_append, List.nil_append, utf8_cons, List.map_append]
+      apply bguardAux_noquote_append _ _ _ (ih false)
+      intro b hb
+      simp only [List.mem_map] at hb
+      obtain ⟨u, hu, rfl⟩ := hb
+      intro h34
+      have := utf8EncodeChar_ascii c 34 (by decide) u hu h34
+      exact hc (char_eq_of_toNat c '"' (by rw [this]; rfl))
+
+theorem reprQuote_34 (bs : List Nat) (h : reprQuote bs = 34) : ∀ b ∈ bs, b ≠ 34 := by
+  unfold reprQuote at h
+  split at h
+  · rename_i hc
+    simp only [Bool.and_eq_true, Bool.not_eq_true', List.contains_eq_mem, decide_eq_false_iff_not] at hc
+    intro b hb hb34
+    subst hb34
+    exact hc.2 hb
+  · cases h
+
+/-- **C12_log_quote_guarded**: in every atom `LogManager.access` writes, for every input text,
+    every double quote is immediately preceded by a backslash. -/
+theorem C12_log_quote_guarded (s : Text) : QuotesGuarded (logEscape s) := by
+  unfold QuotesGuarded logEscape
+  apply undouble_guarded
+  unfold bytesReprBody
+  have hlt : ∀ b ∈ (utf8 (escQuote s)).map UInt8.toNat, b < 256 := map_toNat_lt _
+  rcases reprQuote_cases ((utf8 (escQuote s)).map UInt8.toNat) with hq | hq
+  · rw [hq]
+    exact flatMap_repr34_guarded _ hlt (reprQuote_34 _ hq) false
+  · rw [hq]
+    exact flatMap_repr39_guarded _ hlt false (escQuote_bytes_guarded s false)
+
+/-- the stronger reading of "double quotes are escaped": every double quote is preceded by an
+    ODD number of backslashes, i.e. a reader that takes `\\` for an escaped backslash and `\"` for
+    an escaped quote never sees a bare quote (`odd` = the backslash run ending here is odd) -/
+def strongAux : Bool → Text → Bool
+  | _, [] => true
+  | odd, c :: rest => (c != '"' || odd) && strongAux (c == '\\' && !odd) rest
+
+def QuotesStrong (l : Text) : Prop := strongAux false l = true
+
+/-- the full statement under the stronger reading -/
+def C12_log_quote_strong : Prop := ∀ s : Text, QuotesStrong (logEscape s)
+
+/-- **F13**: false on the unchanged code.  Witness: the two characters `\"` are logged as the
+    three characters `\\"` — an escaped backslash followed by a bare quote. -/
+theorem C12_log_quote_strong_false : ¬ C12_log_quote_strong := by
+  intro h
+  have h1 : logEscape ['\\', '"'] = ['\\', '\\', '"'] := by decide +kernel
+  have := h ['\\', '"']
+  unfold QuotesStrong at this
+  rw [h1] at this
+  revert this
+  decide
+
 end CpProofs.C12
